@@ -402,6 +402,17 @@ func run(c *fw.Ctx, idx int) {
 		p.Layout = ""
 		p.Wrap = false
 		t = &tree{file: genBytes(r, 32*6100)}
+	} else if idx%40 == 17 {
+		// many nodes: more than a thousand small files below the top level (the importer's
+		// directory cache is flushed and re-read along the way)
+		sub := &tree{dir: map[string]*tree{}}
+		for i, n := 0, r.Range(1100, 1600); i < n; i++ {
+			sub.dir[fmt.Sprintf("f%05d", i)] = &tree{file: genBytes(r, r.Intn(24))}
+		}
+		t = &tree{dir: map[string]*tree{"sub": sub, "top.txt": {file: genBytes(r, 10)}}}
+		if r.Bool() {
+			t.dir["other"] = &tree{dir: map[string]*tree{"x": {file: genBytes(r, 5)}}}
+		}
 	} else {
 		t = genTree(r, 3, chunk)
 	}
